@@ -35,9 +35,11 @@ type efCall struct {
 	wait   time.Duration
 	preY   int
 	workY  int
-	postY  int
-	skip   bool
-	dual   bool // Options only: resolve is called from two goroutines at once, with different values
+	// preSleep: a pause on the virtual clock before the call
+	preSleep time.Duration
+	postY    int
+	skip     bool
+	dual     bool // Options only: resolve is called from two goroutines at once, with different values
 	// many-keys scenario: the work function of this call returns only after the key burst has drained and the
 	// follow-up call has been announced / this call is made only once the burst has drained
 	waitBurst  bool
@@ -78,6 +80,9 @@ func TestExclFree(t *testing.T) {
 					workY: rapid.SampledFrom([]int{0, 0, 1, 3, 8}).Draw(t, "workY"),
 					postY: rapid.SampledFrom([]int{0, 0, 1, 3}).Draw(t, "postY"),
 				}
+				// a pause on the (virtual) clock before the call: the same few durations as the waits, so that callers
+				// wake up at the very instant at which somebody else's wait ends
+				c.preSleep = rapid.SampledFrom([]time.Duration{0, 0, 0, time.Microsecond, time.Millisecond, 2 * time.Millisecond}).Draw(t, "preSleep")
 				if strings.Contains(c.style, "After") || c.style == "Options" {
 					c.wait = rapid.SampledFrom([]time.Duration{0, 0, time.Microsecond, time.Millisecond}).Draw(t, "wait")
 				}
@@ -121,7 +126,7 @@ func TestExclFree(t *testing.T) {
 		for g, cs := range calls {
 			var d []string
 			for _, c := range cs {
-				d = append(d, fmt.Sprintf("%s(k%d,w=%v,y=%d/%d/%d,skip=%v,dual=%v,slow=%v,follow=%v)", c.style, c.key, c.wait, c.preY, c.workY, c.postY, c.skip, c.dual, c.waitBurst, c.afterBurst))
+				d = append(d, fmt.Sprintf("%s(k%d,w=%v,y=%d/%d/%d,skip=%v,dual=%v,slow=%v,follow=%v)", c.style, c.key, c.wait, c.preY, c.workY, c.postY, c.skip, c.dual, c.waitBurst, c.afterBurst)+fmt.Sprintf("+sleep%v", c.preSleep))
 			}
 			trace = append(trace, fmt.Sprintf("g%d=%v", g, d))
 		}
@@ -216,6 +221,9 @@ func TestExclFree(t *testing.T) {
 						}
 					}()
 					for _, c := range calls[g] {
+						if c.preSleep > 0 {
+							time.Sleep(c.preSleep)
+						}
 						for i := 0; i < c.preY; i++ {
 							runtime.Gosched()
 						}
